@@ -265,6 +265,16 @@ def o5(prog, rep):
             # the equal edge
             ok = all(not (heads & body.reachable(v, removed_edges=set(e), removed_blocks=set(bl)))
                      for (u, v) in c.false_edges)
+            # ... and no iteration completes without having taken the equal edge (an early
+            # `continue` for absent votes placed above the comparison would skip it: the power
+            # of an absent validator is the denominator of the >2/3 threshold)
+            cut_edges = set(e) | set(c.true_edges)
+            for h in heads:
+                for s_ in body.succ[h]:
+                    if (h, s_) in cut_edges:
+                        continue
+                    if h in body.reachable(s_, removed_edges=cut_edges, removed_blocks=set(bl)):
+                        ok = False
         rep.check(ok, "O5", f"cross-check:{nm}",
                   f"the extended commit can pass the cross-check although its {nm} differs from "
                   f"the last commit's", f"{body.file}:{c.line}")
